@@ -1,4 +1,5 @@
 import Driver.Paych
+import Driver.Evm
 
 /-- generic stdin/stdout loop over a pure handler -/
 partial def loop {σ : Type} (h : IO.FS.Stream) (out : IO.FS.Stream) (step : σ → String → σ × String)
@@ -15,4 +16,5 @@ def main (args : List String) : IO UInt32 := do
   let stdout ← IO.getStdout
   match args with
   | ["paych"] => loop stdin stdout Driver.Paych.handle (BA.Paych.init 0 0); return 0
+  | ["evm"] => loop stdin stdout Driver.Evm.handle (); return 0
   | _ => IO.eprintln "usage: driver <model>"; return 2
